@@ -28,6 +28,10 @@ CONFIGS = [
     ('UGrid', {'edges': 'none', 'transposed': True}, ['face', 'node']),
     ('UGrid', {'edges': 'both', 'edge_transposed': True, 'transposed': True}, ['face', 'node', 'edge']),
     ('UGrid', {'edges': 'dimension'}, ['face', 'node', 'edge']),
+    # data variables stored ahead of the coordinates with x before y: Dataset.sizes lists the dimensions in another order than (y, x)
+    ('CFGrid1D', {'leading': ('lon', 'lat')}, ['face']),
+    ('CFGrid2D', {'first_var': ('leading', ('i', 'j'), {})}, ['face']),
+    ('ShocStandard', {'leading': True}, ['face', 'left', 'back', 'node']),
 ]
 
 
